@@ -660,6 +660,18 @@ func (rt *Runtime) runStmt(ctx context.Context, key string, idx int, sp *StmtPro
 			return op.Err.Build()
 		case "retlast":
 			return last
+		case "finishcopy":
+			// the idiomatic end of a COPY handler: complete on end-of-stream,
+			// otherwise report the error that ended the loop
+			if last == io.EOF {
+				err := w.Complete(op.Tag)
+				c.rec("op", fmt.Sprintf("%d complete %s", oi, errClass(err)))
+				return err
+			}
+			if last == nil {
+				return errors.New("copy handler stopped without reaching the end of the stream")
+			}
+			return last
 		default:
 			panic("unknown op " + op.K)
 		}
